@@ -412,12 +412,15 @@ int main(int argc, char** argv) {
                     }
                     (void)seg;
                 }
-                double worst = 0;
+                bool penetrates = false;
                 for (auto& c : chk) {
-                    const Vec3 a = pts[c.first - 1].p, b = pts[c.first].p; const Transform X = X_GS(s, c.second); const double len = (b - a).norm();
+                    const Vec3 a = pts[c.first - 1].p, b = pts[c.first].p; const Transform X = X_GS(s, c.second); const double len = (b - a).norm(); double worst = 0;
                     for (int t = 0; t <= 50; ++t) { const Vec3 x = a + (b - a) * (t / 50.0); worst = std::max(worst, sc.surf[c.second].inside(~X * x) / (eps * len + 1e-9 * sc.surf[c.second].size + 1e-12)); }
+                    // key names the obstacle kind and its reported status: the solver tracks ONE candidate contact per obstacle, so a non-convex
+                    // obstacle (torus) can be hit on a part of the ring other than the tracked one without a touchdown being reported
+                    if (!run.residual(std::string("span-straight-segment-outside-obstacle/") + sc.surf[c.second].name() + (base0.contact[c.second] ? "/in-contact" : "/lifted-off"), worst, 3.0, where)) penetrates = true;
                 }
-                if (!chk.empty()) run.residual("span-straight-segments-outside-obstacles/" + okind, worst, 3.0, where);
+                if (penetrates) return;    // the reported state is not a valid path: one root cause, one key (the force / rate oracles would only repeat it)
             }
             // (6) forces: unit forces at the attachment points, net wrench, power
             auto forcesFor = [&](const State& st, double T) { Vector_<SpatialVec> F(sc.matter.getNumBodies(), SpatialVec(Vec3(0), Vec3(0))); sc.span.applyBodyForces(st, T, F); return F; };
@@ -472,6 +475,8 @@ int main(int argc, char** argv) {
                 Vector_<SpatialVec> F = forcesFor(sv, T); double pw = 0;
                 for (MobilizedBodyIndex b(0); b < sc.matter.getNumBodies(); ++b) pw += ~F[b] * sc.matter.getMobilizedBody(b).getBodyVelocity(sv);
                 if (run.verbose) { fprintf(stderr, "  u#%d: lengthDot=%.15g calcCablePower=%.15g sum F.V=%.15g -T*Ldot=%.15g vs=%.3g\n", k, Ld, P, pw, -T * Ld, vs);
+                    if (nVia && k == 0) for (int kk = 0; kk < nOb; ++kk) { const Vec3 hp = X_GS(sv, kk) * sc.span.getObstacleContactPointHint(CableSpanObstacleIndex(kk)); const Vec3 vp = viaG(sv, 0);
+                        fprintf(stderr, "      obstacle %d hint point in G %s ; direction hint->via %s ; via->hint %s\n", kk, s3(hp).c_str(), s3((vp - hp) / (vp - hp).norm()).c_str(), s3((hp - vp) / (vp - hp).norm()).c_str()); }
                     if (nVia) { SpatialVec fv; sc.span.calcViaPointUnitForce(sv, CableSpanViaPointIndex(0), fv); fprintf(stderr, "      via unit force %s in %s out %s\n", s3(fv[1]).c_str(),
                         s3(Vec3(sc.span.calcViaPointIncomingTangentDirection(sv, CableSpanViaPointIndex(0)))).c_str(), s3(Vec3(sc.span.calcViaPointOutgoingTangentDirection(sv, CableSpanViaPointIndex(0)))).c_str()); } }
                 run.residual("span-cable-power-is-applied-forces-times-velocities", std::abs(P - pw) / (T * (vs + 1)), 1e-13, where);
@@ -495,7 +500,7 @@ int main(int argc, char** argv) {
             const PathPosEntry& ppe = pimpl.getPosEntry(sp0); const PathInstanceInfo& inst = pimpl.getInstanceInfo(sp0);
             const double errN = ppe.err.size() ? ppe.err.norm() : 0.0;
             const double Lp = path.getCableLength(sp0);
-            bool posLen = true; std::vector<double> glen(nOb, 0.0);
+            bool posLen = true, backwards = false; std::vector<double> glen(nOb, 0.0);
             int nObsAll = path.getNumObstacles();
             // geometry from the implementation's bookkeeping
             struct PP { Vec3 P, Q; bool surface; int k; };
@@ -505,13 +510,24 @@ int main(int argc, char** argv) {
                 Vec3 P_B, Q_B; ob.getContactStationsOnBody(sp0, inst, ppe, P_B, Q_B);
                 const MobilizedBody& mb = ob.getMobilizedBody();
                 PP e; e.P = mb.findStationLocationInGround(sp0, P_B); e.Q = mb.findStationLocationInGround(sp0, Q_B); e.surface = ob.getNumCoordsPerContactPoint() > 0; e.k = e.surface ? ks++ : -1;
-                if (e.surface) { glen[e.k] = ob.getSegmentLength(sp0, inst, ppe); posLen = posLen && glen[e.k] >= 0; }
+                if (e.surface) {
+                    glen[e.k] = ob.getSegmentLength(sp0, inst, ppe); posLen = posLen && glen[e.k] >= 0;
+                    // a geodesic running against the cable direction is CablePath's lift-off witness ("consider the length negative"): the event
+                    // handler of a time stepper would now deactivate the surface; statically this is a configuration that needs lift-off
+                    const ActiveSurfaceIndex asx = ppe.mapToActiveSurface[ox];
+                    if (asx.isValid() && ppe.geodesics[asx].getNumPoints() >= 2) {
+                        const Rotation R_GS = (mb.getBodyTransform(sp0) * sc.X_BS[e.k]).R();
+                        const Vec3 tP = R_GS * Vec3(ppe.geodesics[asx].getTangentP()), tQ = R_GS * Vec3(ppe.geodesics[asx].getTangentQ());
+                        const Vec3 prevQ = pp.empty() ? e.P : pp.back().Q;
+                        if (dot(e.P - prevQ, tP) < 0 || dot(e.Q - e.P, tP) < 0 || dot(e.Q - e.P, tQ) < 0) backwards = true;
+                    }
+                }
                 pp.push_back(e);
             }
             if (run.verbose) { fprintf(stderr, "  CablePath: L=%.15g |err|=%.3g\n", Lp, errN);
                 for (auto& e : pp) fprintf(stderr, "    P=%s Q=%s surface=%d geodesic=%.15g\n", s3(e.P).c_str(), s3(e.Q).c_str(), (int)e.surface, e.surface ? glen[e.k] : 0.0); }
-            const bool pathConv = std::isfinite(Lp) && errN <= 1e-9 && posLen;
-            run.count(std::string("path:") + (pathConv ? "converged" : (errN <= 1e-9 ? "negative-geodesic" : "not-converged")) + "/" + okind);
+            const bool pathConv = std::isfinite(Lp) && errN <= 1e-9 && posLen && !backwards;
+            run.count(std::string("path:") + (pathConv ? "converged" : (errN <= 1e-9 ? "backwards-geodesic-lift-off-pending" : "not-converged")) + "/" + okind);
             if (!pathConv) return;
             run.evaluationDistinct(true);
             double sum = 0; for (size_t i = 0; i < pp.size(); ++i) { if (i) sum += (pp[i].P - pp[i - 1].Q).norm(); if (pp[i].surface) sum += glen[pp[i].k]; }
